@@ -252,6 +252,21 @@ def run(ctx):
                 rpj.add_struct_tag(project_, rng, "BigArr_q", [("n", "DINT", 0), ("data", rng.choice(["SINT", "INT"]), n_), ("tail", "REAL", 0)], "bigarr_q")
                 rpj.add_string_tag(project_, rng, "BigStr_q", rng.choice([32767, 32768, 40000, 65535]), "bigstr_q")
                 res.count("projects-with-16-bit-boundary-sizes")
+            if size != "fixture" and pi % 4 == 2:
+                # "UDTs nested to any depth": one family nested 9 to 14 levels with a single tag of the outermost type, so the whole chain
+                # is unresolved when the driver meets it (the generator's ordinary projects stop at 4 levels)
+                project_ = rpj.generate_project(rng, size, fw=cfg[1], micro800=cfg[2])
+                dp_ = rng.randint(9, 14)
+                rpj.add_deep_tag(project_, rng, dp_, "deep_q")
+                res.count("projects-with-9-to-14-levels-of-nesting")
+            if size != "fixture" and pi % 4 == 3:
+                # a string is a LEN/DATA structure, by those names: a UDT that merely has the same shape (a DINT and a SINT array under
+                # other names, or LEN/DATA in the other order) is an ordinary structure
+                project_ = rpj.generate_project(rng, size, fw=cfg[1], micro800=cfg[2])
+                f_ = rng.choice([[("count", "DINT", 0), ("raw", "SINT", rng.choice([4, 16, 82]))], [("Len", "DINT", 0), ("Data", "SINT", 12)],
+                                 [("LEN", "DINT", 0), ("DATA", "INT", 8)]])
+                rpj.add_struct_tag(project_, rng, "Lookalike_q", f_, "lookalike_q")
+                res.count("projects-with-a-string-lookalike-structure")
             sc = LogixScenario(rng, size=size, config=cfg, init_program_tags=ipt, project=project_)
             res.count("uploads")
             res.count(f"page:{sc.dev.page_mode}")
@@ -318,6 +333,16 @@ def run(ctx):
                     else:
                         js0 = check_upload(res, sc, sc.drv, "*" if ipt else None, keyp="after-edit:")
             # ---- scoped uploads -------------------------------------------------------------------------------------------
+            if rng.random() < 0.4:
+                # the information helpers are queries: asking the controller who it is (again) takes nothing away from what the driver
+                # has uploaded - tags, data types, the program / task lists and with them the scoped uploads below
+                st, out = sc.b.call("get_plc_info", sc.drv.get_plc_info)
+                res.count("get_plc_info-between-uploads")
+                res.ev()
+                if st != "ok" or not isinstance(out, dict):
+                    res.violation("get_plc_info-raises", f"get_plc_info() on an open driver -> {out!r:.200} ({sc.label})", {"config": sc.label})
+                else:
+                    check_upload(res, sc, sc.drv, "*" if ipt else None, keyp="after-get_plc_info:")
             if sc.prj.programs and not sc.micro:
                 pn = rng.choice(sorted(sc.prj.programs))
                 full = sc.drv.tags
